@@ -11,6 +11,7 @@ therefore stated for blocks other than `try` on the path of the signal, and the 
 `try` is proved as `try_catches_return_witness`.
 -/
 import Anko.Proofs.EvalSig
+import Anko.Gen.StmtFlow
 
 set_option linter.unusedSectionVars false
 set_option linter.unusedSimpArgs false
@@ -257,5 +258,169 @@ theorem truthy_int (i : I64) : toBool (.int i) = some (i != 0) := rfl
 theorem truthy_empty_string : toBool (.str []) = some false := rfl
 theorem truthy_list (xs : List Val) : toBool (.list xs) = some (!xs.isEmpty) := rfl
 theorem truthy_map (m : List (Val × Val)) : toBool (.map m) = some (!m.isEmpty) := rfl
+
+
+/-! ### How control moves through the branch and loop functions of the source (regenerated: Gen/StmtFlow)
+
+Every leaf statement of runStmtsStmt, runIfStmt, runSwitchStmt and the loop functions of vm/vmStmt.go, with the conditions it stands
+under, is extracted on every run and compared with the table below, written next to the model's evaluator: a loop polls the context
+at the top of every round; `ErrContinue` is cleared and the loop goes on, `ErrBreak` is cleared and the loop ends, `ErrReturn` and
+every other error leave the loop as they are; the scope entered for the loop is left again on every way out; a switch runs the first
+matching case, else the default; an if runs the first branch whose condition holds. A signal handled in another place, a poll
+dropped, a scope not restored or a changed order shows as a difference. -/
+/-- the statement list, if, switch and the five loop forms -/
+def branchAndLoopFlow : List (String × String) := [
+  ("runStmtsStmt", "for _, stmt range stmts.Stmts => switch stmt.(type) { case *ast.BreakStmt: E = ErrBreak return case *ast.ContinueStmt: E = ErrContinue return case *ast.ReturnStmt: ri.stmt = stmt ri.runSingleStmt() if E != nil { return } E = ErrReturn return default: ri.stmt = stmt ri.runSingleStmt() if E != nil { return } }"),
+  ("runIfStmt", "ri.expr = stmt.If"),
+  ("runIfStmt", "ri.invokeExpr()"),
+  ("runIfStmt", "E != nil => return"),
+  ("runIfStmt", "env := ri.env"),
+  ("runIfStmt", "toBool(R) => R = nilValue"),
+  ("runIfStmt", "toBool(R) => ri.stmt = stmt.Then"),
+  ("runIfStmt", "toBool(R) => ri.env = env.NewEnv()"),
+  ("runIfStmt", "toBool(R) => ri.runSingleStmt()"),
+  ("runIfStmt", "toBool(R) => ri.env = env"),
+  ("runIfStmt", "toBool(R) => return"),
+  ("runIfStmt", "for _, statement range stmt.ElseIf => elseIf := statement.(*ast.IfStmt)"),
+  ("runIfStmt", "for _, statement range stmt.ElseIf => ri.env = env.NewEnv()"),
+  ("runIfStmt", "for _, statement range stmt.ElseIf => ri.expr = elseIf.If"),
+  ("runIfStmt", "for _, statement range stmt.ElseIf => ri.invokeExpr()"),
+  ("runIfStmt", "for _, statement range stmt.ElseIf && E != nil => ri.env = env"),
+  ("runIfStmt", "for _, statement range stmt.ElseIf && E != nil => return"),
+  ("runIfStmt", "for _, statement range stmt.ElseIf && !toBool(R) => continue"),
+  ("runIfStmt", "for _, statement range stmt.ElseIf => R = nilValue"),
+  ("runIfStmt", "for _, statement range stmt.ElseIf => ri.stmt = elseIf.Then"),
+  ("runIfStmt", "for _, statement range stmt.ElseIf => ri.env = env.NewEnv()"),
+  ("runIfStmt", "for _, statement range stmt.ElseIf => ri.runSingleStmt()"),
+  ("runIfStmt", "for _, statement range stmt.ElseIf => ri.env = env"),
+  ("runIfStmt", "for _, statement range stmt.ElseIf => return"),
+  ("runIfStmt", "stmt.Else != nil => R = nilValue"),
+  ("runIfStmt", "stmt.Else != nil => ri.stmt = stmt.Else"),
+  ("runIfStmt", "stmt.Else != nil => ri.env = env.NewEnv()"),
+  ("runIfStmt", "stmt.Else != nil => ri.runSingleStmt()"),
+  ("runIfStmt", "ri.env = env"),
+  ("runSwitchStmt", "env := ri.env"),
+  ("runSwitchStmt", "ri.env = env.NewEnv()"),
+  ("runSwitchStmt", "ri.expr = stmt.Expr"),
+  ("runSwitchStmt", "ri.invokeExpr()"),
+  ("runSwitchStmt", "E != nil => ri.env = env"),
+  ("runSwitchStmt", "E != nil => return"),
+  ("runSwitchStmt", "value := unalias(R)"),
+  ("runSwitchStmt", "for _, switchCaseStmt range stmt.Cases => caseStmt := switchCaseStmt.(*ast.SwitchCaseStmt)"),
+  ("runSwitchStmt", "for _, switchCaseStmt range stmt.Cases && for _, ri.expr range caseStmt.Exprs => ri.invokeExpr()"),
+  ("runSwitchStmt", "for _, switchCaseStmt range stmt.Cases && for _, ri.expr range caseStmt.Exprs && E != nil => ri.env = env"),
+  ("runSwitchStmt", "for _, switchCaseStmt range stmt.Cases && for _, ri.expr range caseStmt.Exprs && E != nil => return"),
+  ("runSwitchStmt", "for _, switchCaseStmt range stmt.Cases && for _, ri.expr range caseStmt.Exprs && equal(R, value) => ri.stmt = caseStmt.Stmt"),
+  ("runSwitchStmt", "for _, switchCaseStmt range stmt.Cases && for _, ri.expr range caseStmt.Exprs && equal(R, value) => ri.runSingleStmt()"),
+  ("runSwitchStmt", "for _, switchCaseStmt range stmt.Cases && for _, ri.expr range caseStmt.Exprs && equal(R, value) => ri.env = env"),
+  ("runSwitchStmt", "for _, switchCaseStmt range stmt.Cases && for _, ri.expr range caseStmt.Exprs && equal(R, value) => return"),
+  ("runSwitchStmt", "stmt.Default == nil => R = nilValue"),
+  ("runSwitchStmt", "!(stmt.Default == nil) => ri.stmt = stmt.Default"),
+  ("runSwitchStmt", "!(stmt.Default == nil) => ri.runSingleStmt()"),
+  ("runSwitchStmt", "ri.env = env"),
+  ("runLoopStmt", "env := ri.env"),
+  ("runLoopStmt", "ri.env = env.NewEnv()"),
+  ("runLoopStmt", "for => select { case <-ri.ctx.Done(): E = ErrInterrupt R = nilValue ri.env = env return default: }"),
+  ("runLoopStmt", "for && stmt.Expr != nil => ri.expr = stmt.Expr"),
+  ("runLoopStmt", "for && stmt.Expr != nil => ri.invokeExpr()"),
+  ("runLoopStmt", "for && stmt.Expr != nil && E != nil => break"),
+  ("runLoopStmt", "for && stmt.Expr != nil && !toBool(R) => break"),
+  ("runLoopStmt", "for => ri.stmt = stmt.Stmt"),
+  ("runLoopStmt", "for => ri.runSingleStmt()"),
+  ("runLoopStmt", "for && E != nil && E == ErrContinue => E = nil"),
+  ("runLoopStmt", "for && E != nil && E == ErrContinue => continue"),
+  ("runLoopStmt", "for && E != nil && E == ErrReturn => ri.env = env"),
+  ("runLoopStmt", "for && E != nil && E == ErrReturn => return"),
+  ("runLoopStmt", "for && E != nil && E == ErrBreak => E = nil"),
+  ("runLoopStmt", "for && E != nil => break"),
+  ("runLoopStmt", "R = nilValue"),
+  ("runLoopStmt", "ri.env = env"),
+  ("runForStmt", "ri.expr = stmt.Value"),
+  ("runForStmt", "ri.invokeExpr()"),
+  ("runForStmt", "value := R"),
+  ("runForStmt", "E != nil => return"),
+  ("runForStmt", "value = containerOperand(value)"),
+  ("runForStmt", "env := ri.env"),
+  ("runForStmt", "ri.env = env.NewEnv()"),
+  ("runForStmt", "value.Kind() in {Slice, Array} => ri.runForSliceStmt(stmt, value)"),
+  ("runForStmt", "value.Kind() in {Map} => ri.runForMapStmt(stmt, value)"),
+  ("runForStmt", "value.Kind() in {Chan} => ri.runForChanStmt(stmt, value)"),
+  ("runForStmt", "value.Kind() default => E = newStringError(stmt, \"for cannot loop over type \"+value.Kind().String())"),
+  ("runForStmt", "value.Kind() default => R = nilValue"),
+  ("runForStmt", "ri.env = env"),
+  ("runForSliceStmt", "for i := 0; i < value.Len(); i++ => select { case <-ri.ctx.Done(): E = ErrInterrupt R = nilValue return default: }"),
+  ("runForSliceStmt", "for i := 0; i < value.Len(); i++ => iv := unalias(value.Index(i))"),
+  ("runForSliceStmt", "for i := 0; i < value.Len(); i++ && (iv.Kind() == Interface && !iv.IsNil()) => iv = iv.Elem()"),
+  ("runForSliceStmt", "for i := 0; i < value.Len(); i++ => ri.env.DefineValue(stmt.Vars[0], iv)"),
+  ("runForSliceStmt", "for i := 0; i < value.Len(); i++ => ri.stmt = stmt.Stmt"),
+  ("runForSliceStmt", "for i := 0; i < value.Len(); i++ => ri.runSingleStmt()"),
+  ("runForSliceStmt", "for i := 0; i < value.Len(); i++ && E != nil && E == ErrContinue => E = nil"),
+  ("runForSliceStmt", "for i := 0; i < value.Len(); i++ && E != nil && E == ErrContinue => continue"),
+  ("runForSliceStmt", "for i := 0; i < value.Len(); i++ && E != nil && E == ErrReturn => return"),
+  ("runForSliceStmt", "for i := 0; i < value.Len(); i++ && E != nil && E == ErrBreak => E = nil"),
+  ("runForSliceStmt", "for i := 0; i < value.Len(); i++ && E != nil => break"),
+  ("runForSliceStmt", "R = nilValue"),
+  ("runForMapStmt", "keys := value.MapKeys()"),
+  ("runForMapStmt", "for i := 0; i < len(keys); i++ => select { case <-ri.ctx.Done(): E = ErrInterrupt R = nilValue return default: }"),
+  ("runForMapStmt", "for i := 0; i < len(keys); i++ => mapValue := value.MapIndex(keys[i])"),
+  ("runForMapStmt", "for i := 0; i < len(keys); i++ && !mapValue.IsValid() => continue"),
+  ("runForMapStmt", "for i := 0; i < len(keys); i++ => ri.env.DefineValue(stmt.Vars[0], keys[i])"),
+  ("runForMapStmt", "for i := 0; i < len(keys); i++ && len(stmt.Vars) > 1 => ri.env.DefineValue(stmt.Vars[1], mapValue)"),
+  ("runForMapStmt", "for i := 0; i < len(keys); i++ => ri.stmt = stmt.Stmt"),
+  ("runForMapStmt", "for i := 0; i < len(keys); i++ => ri.runSingleStmt()"),
+  ("runForMapStmt", "for i := 0; i < len(keys); i++ && E != nil && E == ErrContinue => E = nil"),
+  ("runForMapStmt", "for i := 0; i < len(keys); i++ && E != nil && E == ErrContinue => continue"),
+  ("runForMapStmt", "for i := 0; i < len(keys); i++ && E != nil && E == ErrReturn => return"),
+  ("runForMapStmt", "for i := 0; i < len(keys); i++ && E != nil && E == ErrBreak => E = nil"),
+  ("runForMapStmt", "for i := 0; i < len(keys); i++ && E != nil => break"),
+  ("runForMapStmt", "R = nilValue"),
+  ("runForChanStmt", "var chosen int"),
+  ("runForChanStmt", "var ok bool"),
+  ("runForChanStmt", "value.Type().ChanDir()&RecvDir == 0 => E = newStringError(stmt, \"receive from send-only channel\")"),
+  ("runForChanStmt", "value.Type().ChanDir()&RecvDir == 0 => R = nilValue"),
+  ("runForChanStmt", "value.Type().ChanDir()&RecvDir == 0 => return"),
+  ("runForChanStmt", "for => cases := []SelectCase{{ Dir: SelectRecv, Chan: ValueOf(ri.ctx.Done()), }, { Dir: SelectRecv, Chan: value, }}"),
+  ("runForChanStmt", "for => chosen, R, ok = Select(cases)"),
+  ("runForChanStmt", "for && chosen == 0 => E = ErrInterrupt"),
+  ("runForChanStmt", "for && chosen == 0 => R = nilValue"),
+  ("runForChanStmt", "for && chosen == 0 => break"),
+  ("runForChanStmt", "for && !ok => break"),
+  ("runForChanStmt", "for && (R.Kind() == Interface && !R.IsNil()) => R = R.Elem()"),
+  ("runForChanStmt", "for => ri.env.DefineValue(stmt.Vars[0], R)"),
+  ("runForChanStmt", "for => ri.stmt = stmt.Stmt"),
+  ("runForChanStmt", "for => ri.runSingleStmt()"),
+  ("runForChanStmt", "for && E != nil && E == ErrContinue => E = nil"),
+  ("runForChanStmt", "for && E != nil && E == ErrContinue => continue"),
+  ("runForChanStmt", "for && E != nil && E == ErrReturn => return"),
+  ("runForChanStmt", "for && E != nil && E == ErrBreak => E = nil"),
+  ("runForChanStmt", "for && E != nil => break"),
+  ("runForChanStmt", "R = nilValue"),
+  ("runCForStmt", "env := ri.env"),
+  ("runCForStmt", "ri.env = env.NewEnv()"),
+  ("runCForStmt", "stmt.Stmt1 != nil => ri.stmt = stmt.Stmt1"),
+  ("runCForStmt", "stmt.Stmt1 != nil => ri.runSingleStmt()"),
+  ("runCForStmt", "stmt.Stmt1 != nil && E != nil => ri.env = env"),
+  ("runCForStmt", "stmt.Stmt1 != nil && E != nil => return"),
+  ("runCForStmt", "for => select { case <-ri.ctx.Done(): E = ErrInterrupt R = nilValue ri.env = env return default: }"),
+  ("runCForStmt", "for && stmt.Expr2 != nil => ri.expr = stmt.Expr2"),
+  ("runCForStmt", "for && stmt.Expr2 != nil => ri.invokeExpr()"),
+  ("runCForStmt", "for && stmt.Expr2 != nil && E != nil => break"),
+  ("runCForStmt", "for && stmt.Expr2 != nil && !toBool(R) => break"),
+  ("runCForStmt", "for => ri.stmt = stmt.Stmt"),
+  ("runCForStmt", "for => ri.runSingleStmt()"),
+  ("runCForStmt", "for && E == ErrContinue => E = nil"),
+  ("runCForStmt", "for && E != nil && E == ErrReturn => ri.env = env"),
+  ("runCForStmt", "for && E != nil && E == ErrReturn => return"),
+  ("runCForStmt", "for && E != nil && E == ErrBreak => E = nil"),
+  ("runCForStmt", "for && E != nil => break"),
+  ("runCForStmt", "for && stmt.Expr3 != nil => ri.expr = stmt.Expr3"),
+  ("runCForStmt", "for && stmt.Expr3 != nil => ri.invokeExpr()"),
+  ("runCForStmt", "for && stmt.Expr3 != nil && E != nil => break"),
+  ("runCForStmt", "R = nilValue"),
+  ("runCForStmt", "ri.env = env")
+]
+
+theorem branches_and_loops_move_control_as_modelled :
+    Gen.StmtFlow.leaves.filter (fun l => l.1 != "runTryStmt" && l.1 != "runDefers") = branchAndLoopFlow := by decide +kernel
 
 end Anko.C08
